@@ -8,6 +8,7 @@ HARNESSES = {
     "replay_cb": (["asan"], None),
     "replay_history": (["plain"], None),
     "replay_heap": (["asan"], None),
+    "replay_frame": (["asan"], None),
 }
 def build_all():
     for name, (variants, extra) in HARNESSES.items():
